@@ -11,3 +11,17 @@ package keygen
 //@   ensures[C20] result1 != nil ==> result0 == nil
 //@   ensures[C20] result1 == nil ==> result0 != nil
 //@   loop 1: invariant fresh(PublicSharesECDSA)
+
+// ---- refresh / keygen round 4 (C08, C02): the new secret share is a NEW scalar -- the previous epoch's share object
+// is left untouched --; every party's new public share is F(j) (+ the previous public share of THAT party when
+// refreshing); the new configuration holds exactly these.
+//@ func (*round4).Finalize
+//@   requires r != nil && r.round3 != nil && r.round2 != nil && r.round1 != nil && r.Helper != nil
+//@   ensures[C08] r.PreviousSecretECDSA != nil ==> scval(r.PreviousSecretECDSA) == old(scval(r.PreviousSecretECDSA))
+//@   assert_at[C08] WriteAny "h.WriteAny(UpdatedConfig, r.SelfID())": UpdatedConfig.ECDSA == UpdatedSecretECDSA && fresh(UpdatedSecretECDSA) && UpdatedSecretECDSA != r.PreviousSecretECDSA && UpdatedConfig.Public == PublicData
+//@   assert_at[C08] WriteAny "h.WriteAny(UpdatedConfig, r.SelfID())": r.PreviousSecretECDSA != nil ==> scval(r.PreviousSecretECDSA) == old(scval(r.PreviousSecretECDSA))
+//@   assert_at[C08,C02] WriteAny "h.WriteAny(UpdatedConfig, r.SelfID())": forall(j, party.ID, inslice(r.Helper.partyIDs, j) ==> (indom(PublicData, j) && PublicData[j] != nil && ptval(PublicData[j].ECDSA) == ite(r.PreviousPublicSharesECDSA != nil, p_add(evalpt(ShamirPublicPolynomial, idsc(j)), old(ptval(r.PreviousPublicSharesECDSA[j]))), evalpt(ShamirPublicPolynomial, idsc(j)))))
+//@   loop 1: invariant UpdatedSecretECDSA != nil && fresh(UpdatedSecretECDSA)
+//@   loop 2: invariant fresh(ShamirPublicPolynomials)
+//@   loop 3: invariant fresh(PublicData) && ShamirPublicPolynomial != nil
+//@   loop 3: invariant[C08,C02] each(r.Helper.partyIDs[:rangeindex+1], j, indom(PublicData, j) && PublicData[j] != nil && fresh(PublicData[j]) && ptval(PublicData[j].ECDSA) == ite(r.PreviousPublicSharesECDSA != nil, p_add(evalpt(ShamirPublicPolynomial, idsc(j)), old(ptval(r.PreviousPublicSharesECDSA[j]))), evalpt(ShamirPublicPolynomial, idsc(j))))
